@@ -8,6 +8,7 @@
 -/
 import PegtlVerif.Lemmas.Scope
 import PegtlVerif.Lemmas.Hooks
+import PegtlVerif.Lemmas.Switch
 
 namespace Pegtl.C13
 
@@ -156,6 +157,24 @@ theorem C13_seq_env (rec : Rec) (a : AMode) (m : RMode) (env : Env) (c : Nat) (c
   simp only [seqAll, h1, hok]
   cases seqAll rec a m env cs r1.st <;> rfl
 
+/-- **Switch scoping, whole trace.**  The trace of every invocation — any grammar, any attachment of
+    `change_action`, `change_action_and_state(s)`, `enable_action`, `disable_action`, any nesting of `at`, `not_at`,
+    `enable`, `disable`, `action< F, … >`, any input, outcome and fuel — is accepted by the automaton that
+    recomputes, from the rule table alone, the apply mode and the action family of every invocation from
+    its chain of *enclosing* invocations: every rule is entered with exactly the mode its innermost
+    enclosing invocation prescribes, and an action is called only for the innermost open rule and only
+    if that rule has an action in the prescribed family and mode.  Since the frame of an invocation is
+    popped when it returns, nothing a switch did can reach what comes after the rule it is attached to. -/
+theorem C13_switch_scoped (cx : Ctx) (n i : Nat) (a : AMode) (m : RMode) (env : Env) (st : St) (r : Ret)
+    (h : run cx n i a m env st = some r) : EL cx a env.fam r.raw :=
+  run_switch cx n i a m env st r h
+
+/-- For a whole parse: accepted from the single frame "mode `a`, family 0". -/
+theorem C13_parse_switch (cx : Ctx) (n i : Nat) (a : AMode) (m : RMode) (r : Ret)
+    (h : parseTop cx n i a m = some r) :
+    runEnv cx [⟨0, a, 0, false⟩] r.raw = some [⟨0, a, 0, false⟩] :=
+  C13_switch_scoped cx n i a m {} cx.start r h ⟨0, a, 0, false⟩ rfl rfl []
+
 /-! ### non-vacuity -/
 
 /-- `n0 = seq< n1, n2 >`, `n1 = state< S, n3 >`, `n2 = one< 'b' >` with `change_state` and a `bool` action, `n3 = one< 'a' >`
@@ -180,5 +199,30 @@ example : (parseTop { g := exG, inp := #[97, 97] } 8 0 .action .required).map
 example : (parseTop { g := exG, inp := #[97, 98] } 8 0 .nothing .required).map
     (fun r => (r.res, r.raw.filter (fun e => !e.scopeNeutral))) =
     some (.ok, [.sctor 1, .ssucc 1 ⟨1, 1, 2⟩ 0, .sdtor 1, .sctor 1, .sdtor 1]) := by decide +kernel
+
+/-- `n0 = seq< n1, n2 >`, `n1 = at< n2 >`, `n2 = one< 'a' >` with an action; family 1 gives `n0` an action and is switched to by
+    `change_action` on `n0`. -/
+def swG : Grammar := #[
+  ⟨true, { wrap := .changeAction 1 }, .seq [1, 2]⟩,
+  ⟨true, {}, .atR 2⟩,
+  ⟨true, { kind := .apply }, .atom (.one true [97])⟩]
+
+def swCx : Ctx := { g := swG, inp := #[97], fams := #[#[{ kind := .apply0 }, {}, { kind := .apply }]] }
+
+/-- the run: `n2` inside `at` gets no action, `n2` after it does, `n0` gets its family-1 action -/
+example : (parseTop swCx 8 0 .action .required).map (fun r => (r.res, r.raw.filter (fun e => !e.switchNeutral))) =
+    some (.ok, [.enter 0 .action .required ⟨0, 1, 1⟩, .enter 0 .action .required ⟨0, 1, 1⟩,
+      .enter 1 .action .optional ⟨0, 1, 1⟩, .enter 2 .nothing .optional ⟨0, 1, 1⟩, .exit 2 1 ⟨1, 1, 2⟩, .exit 1 1 ⟨0, 1, 1⟩,
+      .enter 2 .action .optional ⟨0, 1, 1⟩, .apply 2 0 ⟨0, 1, 1⟩ ⟨1, 1, 2⟩, .exit 2 1 ⟨1, 1, 2⟩,
+      .apply0 0 0 ⟨1, 1, 2⟩, .exit 0 1 ⟨1, 1, 2⟩, .exit 0 1 ⟨1, 1, 2⟩]) := by decide +kernel
+
+/-- the automaton is not trivial: the same events with the action of `n2` moved inside the look-ahead are rejected,
+    and so is an `at` that lets its sub-rule run with actions enabled -/
+example : runEnv swCx [⟨0, .action, 0, false⟩]
+    [.enter 0 .action .required ⟨0, 1, 1⟩, .enter 0 .action .required ⟨0, 1, 1⟩, .enter 1 .action .optional ⟨0, 1, 1⟩,
+     .enter 2 .nothing .optional ⟨0, 1, 1⟩, .apply 2 0 ⟨0, 1, 1⟩ ⟨1, 1, 2⟩] = none := by decide
+example : runEnv swCx [⟨0, .action, 0, false⟩]
+    [.enter 0 .action .required ⟨0, 1, 1⟩, .enter 0 .action .required ⟨0, 1, 1⟩, .enter 1 .action .optional ⟨0, 1, 1⟩,
+     .enter 2 .action .optional ⟨0, 1, 1⟩] = none := by decide
 
 end Pegtl.C13
